@@ -182,7 +182,31 @@ def m_bytes_startswith(ex, st, obj, args, kwargs, node):
 def new_bytesio(ex, st, args, kwargs, node):
     if len(args) == 1 and isinstance(args[0], VExt) and args[0].sort == "Bytes":
         return [(st, VExt("BytesIO", BIO_OF(args[0].t)))]
-    return [(st, VExt("BytesIO"))]
+    b = VExt("BytesIO")
+    if not args and not kwargs:
+        st.ghost[("bio", b.t.get_id())] = ()        # empty stream: what is written to it, in order
+    return [(st, b)]
+
+
+def m_bio_write(ex, st, obj, args, kwargs, node):
+    k = ("bio", obj.t.get_id())
+    if k in st.ghost and len(args) == 1:
+        st.ghost[k] = st.ghost[k] + (args[0],)
+    else:
+        st.ghost[("bio-unknown", obj.t.get_id())] = True
+    return [(st, VUnk("written"))]
+
+
+def bio_content(st, a):
+    """The bytes term a BytesIO value holds: BytesIO(x) -> x; BytesIO() followed by exactly one write(x) -> x; else None."""
+    if not (isinstance(a, VExt) and a.sort == "BytesIO"):
+        return None
+    if z3.is_app(a.t) and a.t.decl().name() == "bytesio_of":
+        return a.t.arg(0)
+    w = st.ghost.get(("bio", a.t.get_id()))
+    if w is not None and len(w) == 1 and isinstance(w[0], VExt) and w[0].sort == "Bytes" and not st.ghost.get(("bio-unknown", a.t.get_id())):
+        return w[0].t
+    return None
 
 
 def new_record(cls):
@@ -218,6 +242,7 @@ def install(reg):
         reg.attr_models[("Walker", a)] = (lambda a: lambda ex, st, o: VUnk(f"walker.{a}"))(a)
     reg.method_models[("BytesIO", "read")] = m_read
     reg.method_models[("BytesIO", "seek")] = lambda ex, st, o, a, k, n: [(st, VInt(0))]
+    reg.method_models[("BytesIO", "write")] = m_bio_write
     reg.method_models[("Bytes", "decode")] = m_bytes_decode
     reg.method_models[("Bytes", "startswith")] = m_bytes_startswith
     reg.ext_models["io.BytesIO"] = new_bytesio
@@ -414,8 +439,8 @@ def contracts():
                 return z3.BoolVal(False)          # the part is searched in something else than the whole file
         for e in calls:
             a = e[1]
-            ok = isinstance(a, VExt) and a.sort == "BytesIO" and z3.is_app(a.t) and a.t.decl().name() == "bytesio_of" \
-                and a.t.arg(0).eq(HTMLPART(whole))
+            held = bio_content(st, a)
+            ok = held is not None and held.eq(HTMLPART(whole))
             if not ok:
                 return z3.BoolVal(False)
         return z3.BoolVal(len(calls) <= 1)
